@@ -120,6 +120,7 @@ def gen_case(rng):
     args = []
     body = []
     gsubs = []
+    gwhole = []
     for i in range(nbuf):
         kind = rng.choice(["arg", "arg", "alloc", "global", "gsub", "const", "asub"])
         if kind == "asub":
@@ -176,6 +177,9 @@ def gen_case(rng):
                 gname = f"%gg{i}"
                 body.append(f"    {gname} = memref.get_global @g{i} : {GT}")
                 gsubs.append({"gg": gname, "gshape": gshape, "axis": axis, "GT": GT, "mult": mult, "used": [j]})
+                if rng.random() < 0.3:
+                    # the whole global is an operand as well (then the global must not be re-laid-out under the subview's feet)
+                    gwhole.append((gname, GT, len(gshape), i))
             if len(shape) == 1:
                 offs = [j * shape[0]]
                 st_txt = f"strided<[1], offset: {offs[0]}>"
@@ -278,6 +282,17 @@ def gen_case(rng):
     if open_loop:
         body.append("      scf.yield\n    }")
         skel.append(")")
+    for gname, GT, grank, gi in gwhole:
+        # an accelerator op on the WHOLE global, beside the ops on its block
+        vid += 1
+        args.append(f"%ow{gi}: {GT}")
+        gid = "affine_map<(" + ", ".join(f"d{k}" for k in range(grank)) + ") -> (" + ", ".join(f"d{k}" for k in range(grank)) + ")>"
+        git = ", ".join("#linalg.iterator_type<parallel>" for _ in range(grank))
+        body.append(
+            f'    "linalg.generic"({gname}, %ow{gi}) <{{indexing_maps = [{gid}, {gid}], iterator_types = [{git}], operandSegmentSizes = array<i32: 1, 1>, library_call = "snax_alu"}}> ({{\n'
+            f"    ^bb0(%xw{vid}_0: i32, %xw{vid}_1: i32):\n      \"linalg.yield\"(%xw{vid}_0) : (i32) -> ()\n    }}) {{verif.id = \"acc{vid}\"}} : ({GT}, {GT}) -> ()"
+        )
+        skel.append("W")
     # neutral readers of the original buffers: only after the last accelerator op (direct accesses to the original between two
     # uses of a cast are outside what a single copy-in / copy-out can serve, see DESIGN.md section 7)
     for b in bufs:
